@@ -32,6 +32,9 @@ THEOREMS = [
     "C44.refcount_framed",
     "C44.refcount_apply_independent",
     "C44.refcount_asis_leaks",
+    "C44.catalogue_ops_apply_independent",
+    "C44.catalogue_agg_apply_independent",
+    "C44.refcount_lift_framed",
 ]
 RULE = ("frame cases: one ref_count() operator object x 2-3 applications x random interleavings of subscribe/dispose of 1-3 subscribers "
         "per application (double dispose included); apply cases: every operator with a fluent method x generated arguments x 2-3 cold "
@@ -444,5 +447,5 @@ LEVEL_TEXT = ("Lean: `captures_factory_ok` (kernel `decide` over the capture tab
               "the real ref_count; plus the decided leak of the pre-fix ref_count_. Dynamic oracle: every operator with a fluent method, one operator "
               "object on 2-3 sources vs fresh operators.")
 LEVEL_NOTE = ("The theorem is about the abstract frame model; the tie to the code is the capture table (syntactic AST analysis, fail closed, one "
-              "allow-listed idempotent write) and the shared-vs-fresh oracle; only ref_count_ has an executable model run against the code. Needs "
+              "allow-listed idempotent write) and the shared-vs-fresh oracle; only ref_count_ has an executable model run against the code by this check; `catalogue_ops_apply_independent` / `catalogue_agg_apply_independent` instantiate the theorem (applications with all their subscriptions as instances, Sys.lift) for every handler record of the element-wise and aggregating families (list in C04's level note; tied to the code by C05-C08). Needs "
               "fixes/C44_*.patch: on the unfixed tree the check reports VIOLATION with a replay (ref_count / replay / publish_value).")
